@@ -89,6 +89,14 @@ def as_ref(e, args, fr, m):
 def deep_eq(e, a, b):
     """structural equality of two values -> python bool or z3 Bool"""
     a, b = e.load(a), e.load(b)
+    if isinstance(a, Adt) and a.ty == 'OsStr' and isinstance(b, Str):
+        a = e.load(a.fields[0])
+    if isinstance(b, Adt) and b.ty == 'OsStr' and isinstance(a, Str):
+        b = e.load(b.fields[0])
+    if isinstance(a, NameStr) and isinstance(b, Str) and b.concrete and not isinstance(b, NameStr):
+        return a.at(0, b.v) if len(b.v) == len(a.chars) else False
+    if isinstance(b, NameStr) and isinstance(a, Str) and a.concrete and not isinstance(a, NameStr):
+        return b.at(0, a.v) if len(a.v) == len(b.chars) else False
     if isinstance(a, Str) and isinstance(b, Str):
         return str_eq(a, b)
     if isinstance(a, Int) and isinstance(b, Int):
@@ -1808,6 +1816,12 @@ def vec_dedup(e, args, fr, m):
     return UNIT
 
 
+@contract(r'^(?:HashMap|BTreeMap)::<.*>::(is_empty|len)$')
+def hashmap_is_empty(e, args, fr, m):
+    mp = e.load(args[0])
+    return (len(mp.pairs) == 0) if m.group(1) == 'is_empty' else Int(len(mp.pairs), 'usize')
+
+
 @contract(r'^HashMap::<.*>::values$')
 def hashmap_values(e, args, fr, m):
     mp = e.load(args[0])
@@ -2030,6 +2044,70 @@ def path_file_name(e, args, fr, m):
     if ent is None:
         return some(Adt('OsStr', None, (Str(key.rsplit('/', 1)[-1]),)))
     return some(Adt('OsStr', None, (ent['name'],)))
+
+
+@contract(r'^Path::(extension|file_stem)$|^PathBuf::(extension|file_stem)$')
+def path_extension(e, args, fr, m):
+    """Path::extension / file_stem of the final component: the part after / before the LAST dot; a name that starts with its only dot
+    has no extension (and is its own stem)"""
+    which = m.group(1) or m.group(2)
+    key = _path_key(e, args[0])
+    w = _world(e)
+    ent = w.files.get(key)
+    name = ent['name'] if ent is not None else Str(key.rsplit('/', 1)[-1])
+    wrap = lambda v: some(Adt('OsStr', None, (v,)))
+    if name.concrete:
+        t = name.v
+        k = t.rfind('.')
+        if t in ('', '..'):
+            return NONE if which == 'extension' or t == '' else wrap(Str(t))
+        if k <= 0:
+            return NONE if which == 'extension' else wrap(Str(t))
+        return wrap(Str(t[k + 1:] if which == 'extension' else t[:k]))
+    if not isinstance(name, NameStr):
+        raise Unsupported('extension of a symbolic path that is not a NameStr')
+    n = len(name.chars)
+    dot = [NameStr._is(c, '.') for c in name.chars]
+    # alternative k: the last dot is at position k (k = n: no dot at all)
+    conds = []
+    for k in range(n + 1):
+        later = [z3.Not(d) if not isinstance(d, bool) else (not d) for d in dot[k + 1:]] if k < n else [z3.Not(d) if not isinstance(d, bool) else (not d) for d in dot]
+        conds.append(conj(e, ([dot[k]] if k < n else []) + later))
+    k = e.decide(n + 1, [None if c is True else c for c in conds], 'position of the last dot of a file name')
+    if k == n or k == 0:
+        if n == 2 and which == 'file_stem':
+            pass
+        return NONE if which == 'extension' else wrap(name)
+    return wrap(NameStr(name.chars[k + 1:]) if which == 'extension' else NameStr(name.chars[:k]))
+
+
+@contract(r'^<OsStr as PartialEq<str>>::eq$|^<OsStr as PartialEq<&str>>::eq$|^<&OsStr as PartialEq<str>>::eq$|^<&OsStr as PartialEq<&str>>::eq$|^<str as PartialEq<OsStr>>::eq$')
+def osstr_eq_str(e, args, fr, m):
+    a, b = e.load(args[0]), e.load(args[1])
+    a = a.fields[0] if isinstance(a, Adt) and a.ty == 'OsStr' else a
+    b = b.fields[0] if isinstance(b, Adt) and b.ty == 'OsStr' else b
+    a, b = e.load(a), e.load(b)
+    if isinstance(a, NameStr) or isinstance(b, NameStr):
+        nm, other = (a, b) if isinstance(a, NameStr) else (b, a)
+        if not other.concrete:
+            raise Unsupported('comparison of two symbolic names')
+        if len(other.v) != len(nm.chars):
+            return False
+        return nm.at(0, other.v)
+    return str_eq(a, b)
+
+
+@contract(r'^Option::<.*>::(map_or|is_some_and|is_none_or)::<.*>$')
+def opt_map_or(e, args, fr, m):
+    v = e.force(args[0])
+    which = m.group(1)
+    if which == 'map_or':
+        if v.variant != 'Some':
+            return args[1]
+        return call_closure(e, fr, args[2], [v.fields[0]])
+    if v.variant != 'Some':
+        return which == 'is_none_or'
+    return call_closure(e, fr, args[1], [v.fields[0]])
 
 
 @contract(r'^read_to_string::<.*>$|^fs::read_to_string::<.*>$')
